@@ -44,11 +44,10 @@ def run_engine(name, gen_args, describe, run, max_report=8, timeout=1500):
     impl = subprocess.run([os.path.join(out, "hm"), "run"], input=cases, stdout=subprocess.PIPE, timeout=timeout)
     # the model side is pure: run it on 16 slices in parallel
     lines = cases.splitlines(keepends=True)
-    nparts = 16 if len(lines) > 20000 else 1
-    size = (len(lines) + nparts - 1) // nparts
+    nparts = 16 if len(lines) > 1500 else 1
     procs = []
     for k in range(nparts):
-        part = b"".join(lines[k * size:(k + 1) * size])
+        part = b"".join(lines[k::nparts])      # round robin: heavy cases are spread over the workers
         pr = subprocess.Popen([os.path.join(out, "drv")], stdin=subprocess.PIPE, stdout=subprocess.PIPE)
         procs.append((pr, part))
     import threading
@@ -62,12 +61,18 @@ def run_engine(name, gen_args, describe, run, max_report=8, timeout=1500):
         t.start()
     for t in ths:
         t.join()
+    # one answer line per case line: interleave the answers back into case order
+    split = [o.splitlines(keepends=True) for o in outs]
+    merged = []
+    for i in range(len(lines)):
+        k, j = i % nparts, i // nparts
+        merged.append(split[k][j] if j < len(split[k]) else b"\n")
 
     class M:
         pass
     model = M()
     model.returncode = max(pr.returncode for pr, _ in procs)
-    model.stdout = b"".join(outs)
+    model.stdout = b"".join(merged)
     if impl.returncode != 0:
         run.violations.append({"kind": "crash", "what": "engine %s: implementation harness died (rc=%d)" % (name, impl.returncode),
                                "case": None, "op": None, "case_text": "", "expected": None, "actual": None, "step": False})
